@@ -103,7 +103,20 @@ class Report:
                       f"floor is {r['floor']} (the rule has gone vacuous or its anchors moved)")
                 code = 2
         real = []
+        unjudged = []
+        tainted = list(getattr(prog, "not_restored", []) or []) if prog is not None else []
         for v in self.violations:
+            m_ = re.match(r"^(.*?):(\d+)$", str(v.get("at") or ""))
+            hit_ = None
+            if m_ and tainted:
+                for rel, a_, b_, why in tainted:
+                    if rel == m_.group(1) and a_ <= int(m_.group(2)) <= max(a_, b_):
+                        hit_ = why
+                        break
+            if hit_ is not None:
+                unjudged.append((v, hit_))
+                self.rules[v["rule"]]["violations"] -= 1
+                continue
             txt = known.lookup(self.pid, v["rule"], v["key"])
             if txt is not None:
                 self.rules[v["rule"]]["known_findings"] += 1
@@ -120,6 +133,11 @@ class Report:
             print(f"VIOLATION property={self.pid} replay={path}")
         if real:
             code = 1
+        for v, why in unjudged:
+            print(f"ANALYSIS-ERROR property={self.pid} rule={v['rule']} at {v['at']}: a difference was seen ({v['key']}) but cannot be judged: {why}; "
+                  "review the new helper and extend sa/inline.py or re-freeze after confirming")
+            if code == 0:
+                code = 2
         for n in self.notes:
             print(f"note: {n}")
         self._write_evidence(prog, explanation, len(real))
@@ -158,6 +176,7 @@ class Report:
             cov["call_sites_unresolved"] = prog.unresolved_calls
             cov["tree_digest"] = prog.digest()
             cov["repo_root"] = prog.root
+            cov["normalisation"] = list(getattr(prog, "normalisation_notes", []))[:30] or ["the tree has the reviewed decomposition into functions: nothing was inlined or renamed back"]
         cov.update(self.extra)
         ev = {
             "property_id": self.pid,
